@@ -197,6 +197,9 @@ func VerifRun_C16() {
 		comment = " @c"
 	}
 	line := head + g.text + comment
+	if verifBool("tabs") {
+		line = c16tabs(line) // tab-aligned annotation columns: a tab separates tokens like a blank does
+	}
 	verifObserve("line", line)
 	frag, errs := c16parse(line)
 	verifReach("parsed")
@@ -252,4 +255,15 @@ func containsSub(s, sub string) bool {
 		}
 	}
 	return false
+}
+
+
+func c16tabs(s string) string {
+	b := []byte(s)
+	for i := range b {
+		if b[i] == ' ' {
+			b[i] = '\t'
+		}
+	}
+	return string(b)
 }
